@@ -608,6 +608,11 @@ def base_cases(ctx, rng) -> list:
         recipe = G.random_recipe(rng, conv, ctx.tier, **kw)
         if conv == 'ugrid':
             recipe['names'] = {'two_dim': two_dim}
+            enc = recipe['enc']
+            if 'face_edge' in enc['tables'] and not {'edge_node', 'edge_face'} & set(enc['tables']):
+                # UGRID allows face_edge_connectivity only together with edges; without an edge dimension
+                # Mesh2DTopology.has_valid_face_edge_connectivity raises (C10's ground, not a dataset of ours)
+                enc['edge_dim_declared'] = True
         recipe = G.attach_vars(rng, recipe, n_vars=rng.randint(1, 3), dtypes=('f8', 'i4'))
         if conv == 'shoc_simple':
             for vr in recipe['vars']:
@@ -661,12 +666,17 @@ def run(ctx) -> None:
         if not b.ok:
             ctx.oracle_fail('cache-key-raises-on-valid-dataset', bdesc, f'make_cache_key raised {b.error}')
             continue
-        items.append((b.stream_line(), b.stream_out(), {'case': bcase, 'op': 'stream'}))
-        items.append((b.inv_line(), b.inv_out(), {'case': bcase, 'op': 'inv'}))
         # direct oracle on the base: inventory = what the generator built; default hash = blake2b-32 of the stream
         if b.names != b.state['expected']:
-            ctx.oracle_fail('inventory-mismatch', bdesc,
-                            f"get_all_geometry_names() = {b.names}, the dataset was built with {b.state['expected']}")
+            two = two_dimension_guess_wrong(b)
+            ctx.oracle_fail(SIG_TWO if two else 'inventory-mismatch', bdesc,
+                            f"get_all_geometry_names() = {b.names}, the dataset was built with {b.state['expected']}"
+                            + (f" (a dimension of size 2 precedes the one the edge tables use: {dict(b.ds.sizes)})" if two else ''))
+            if two:
+                ctx.count('base-skipped:two-dimension-guess')
+                continue
+        items.append((b.stream_line(), b.stream_out(), {'case': bcase, 'op': 'stream'}))
+        items.append((b.inv_line(), b.inv_out(), {'case': bcase, 'op': 'inv'}))
         if b.key != b.key_rec or len(b.key) != 64:
             ctx.oracle_fail('default-hash-not-blake2b-of-stream', bdesc,
                             f'make_cache_key(ds) = {b.key}, blake2b-32 of the recorded stream = {b.key_rec}')
@@ -730,7 +740,7 @@ def run(ctx) -> None:
                 # have dimensions (j, i)); the model does not cover the conventions' own validation
                 ctx.count(f'geo-err:{conv}:{kind}')
                 continue
-            certain = not e.state.get('uncertain')
+            certain = not e.state.get('uncertain') and not two_dimension_guess_wrong(e)
             if certain:
                 items.append((e.stream_line(), e.stream_out(), {'case': case, 'op': 'stream'}))
             else:
